@@ -128,4 +128,150 @@ theorem hdrsEq_iff (a b : Hdrs) :
     intro k _
     exact h k
 
+/-! ### the header map a status produces (`Status::into_http`), per key -/
+
+theorem names_ne :
+    nameGrpcDetails ≠ nameGrpcMessage ∧ nameGrpcDetails ≠ nameGrpcStatus ∧
+    nameGrpcMessage ≠ nameGrpcStatus ∧ nameContentType ≠ nameGrpcStatus ∧
+    nameContentType ≠ nameGrpcMessage ∧ nameContentType ≠ nameGrpcDetails := by decide
+
+theorem reserved_names :
+    Spec.Interceptor.reserved nameGrpcDetails = true ∧ Spec.Interceptor.reserved nameGrpcMessage = true ∧
+    Spec.Interceptor.reserved nameGrpcStatus = true ∧ Spec.Interceptor.reserved nameContentType = true ∧
+    (∀ k ∈ reservedHeaders, Spec.Interceptor.reserved k = true) := by decide
+
+theorem code_table : ∀ c : Fin 17,
+    ((codeHeaderValue c.val).isEmpty = false ∧ (codeHeaderValue c.val).all Ascii.isDigit = true ∧
+     digitsVal (codeHeaderValue c.val) = c.val) := by decide
+
+/-- per-key content of the status's metadata contribution -/
+theorem statusMetadataHeaders_getAll (st : GStatus) (k : Bytes) :
+    getAll k (statusMetadataHeaders st) =
+      if k = nameGrpcDetails ∨ k ∈ reservedHeaders then [] else getAll k st.metadata := by
+  unfold statusMetadataHeaders intoSanitizedHeaders
+  by_cases hd : k = nameGrpcDetails
+  · subst hd; simp [getAll_remove_self]
+  · rw [getAll_remove_ne _ _ _ hd]
+    by_cases hr : k ∈ reservedHeaders
+    · simp [hd, hr, getAll_removeAll_mem _ _ _ hr]
+    · simp [hd, hr, getAll_removeAll_not_mem _ _ _ hr]
+
+/-- `Status::add_header` never fails, and per key the map it produces is: the three status
+fields under their names, and under every other name what `extend` left. -/
+theorem addHeader_getAll (st : GStatus) (h : Hdrs) :
+    ∃ H, addHeader st h = some H ∧ ∀ k, getAll k H =
+      if k = nameGrpcDetails ∧ st.details.isEmpty = false then [(B64.encode false st.details, false)]
+      else if k = nameGrpcMessage ∧ st.message.isEmpty = false then [(percentEncode st.message, false)]
+      else if k = nameGrpcStatus then [(codeHeaderValue st.code, false)]
+      else getAll k (extend h (statusMetadataHeaders st)) := by
+  obtain ⟨n1, n2, n3, _, _, _⟩ := names_ne
+  unfold addHeader addHeaderWith
+  simp only [percentEncode_valid, b64encode_valid, if_true]
+  cases hm : st.message.isEmpty <;> cases hd : st.details.isEmpty
+  all_goals
+    refine ⟨_, rfl, ?_⟩
+    intro k
+    by_cases k1 : k = nameGrpcDetails
+    · subst k1
+      simp [getAll_insert_self, getAll_insert_ne _ _ _ _ n1, getAll_insert_ne _ _ _ _ n2, n1, n2]
+    · by_cases k2 : k = nameGrpcMessage
+      · subst k2
+        simp [getAll_insert_self, getAll_insert_ne _ _ _ _ n3, getAll_insert_ne _ _ _ _ k1, k1, n3]
+      · by_cases k3 : k = nameGrpcStatus
+        · subst k3
+          simp [getAll_insert_self, getAll_insert_ne _ _ _ _ k1, getAll_insert_ne _ _ _ _ k2, k1, k2]
+        · simp [getAll_insert_ne _ _ _ _ k1, getAll_insert_ne _ _ _ _ k2, getAll_insert_ne _ _ _ _ k3,
+            k1, k2, k3]
+
+
+/-- `Status::into_http` never panics; per key its header map holds: the fixed content type, the
+code, the percent-encoded message (absent iff empty), the base64 details (absent iff empty), and
+under every other name the status's metadata unless the name is one of tonic's reserved six. -/
+theorem statusIntoHttp_headers {ρ : Type} (dflt : ρ) (st : GStatus) :
+    ∃ H, statusIntoHttp dflt st = some { status := 200, version := 11, headers := H, ext := [], body := dflt } ∧
+      getAll nameContentType H = [(grpcContentType, false)] ∧
+      getAll nameGrpcStatus H = [(codeHeaderValue st.code, false)] ∧
+      getAll nameGrpcMessage H =
+        (if st.message.isEmpty = false then [(percentEncode st.message, false)] else []) ∧
+      getAll nameGrpcDetails H =
+        (if st.details.isEmpty = false then [(B64.encode false st.details, false)] else []) ∧
+      ∀ k, k ≠ nameContentType → k ≠ nameGrpcStatus → k ≠ nameGrpcMessage → k ≠ nameGrpcDetails →
+        getAll k H = if k ∈ reservedHeaders then [] else getAll k st.metadata := by
+  obtain ⟨H, hH, hget⟩ := addHeader_getAll st (insert nameContentType (grpcContentType, false) [])
+  obtain ⟨n1, n2, n3, n4, n5, n6⟩ := names_ne
+  have hbase : ∀ k, getAll k (insert nameContentType (grpcContentType, false) ([] : Hdrs)) =
+      if k = nameContentType then [(grpcContentType, false)] else [] := by
+    intro k
+    by_cases hk : k = nameContentType
+    · subst hk; simp [getAll_insert_self]
+    · simp [getAll_insert_ne _ _ _ _ hk, hk, getAll_nil]
+  have hother : ∀ k, getAll k (extend (insert nameContentType (grpcContentType, false) ([] : Hdrs))
+      (statusMetadataHeaders st)) =
+      if k = nameContentType then [(grpcContentType, false)]
+      else if k = nameGrpcDetails ∨ k ∈ reservedHeaders then [] else getAll k st.metadata := by
+    intro k
+    rw [getAll_extend, hbase]
+    cases hc : contains k (statusMetadataHeaders st)
+    · have := (contains_eq_false_iff _ _).mp hc
+      rw [statusMetadataHeaders_getAll] at this
+      by_cases hk : k = nameContentType
+      · simp [hk]
+      · simp only [hk, if_false, Bool.false_eq_true]
+        split at this
+        · simp [*]
+        · rename_i hn; simp [hn, this]
+    · have hne : getAll k (statusMetadataHeaders st) ≠ [] := by
+        intro e
+        have := (contains_eq_false_iff _ _).mpr e
+        rw [hc] at this; cases this
+      rw [statusMetadataHeaders_getAll] at hne ⊢
+      have hk : k ≠ nameContentType := by
+        intro e; subst e
+        simp [reservedHeaders, nameContentType] at hne
+      simp only [if_true, hk, if_false]
+  have hmres : nameGrpcMessage ∈ reservedHeaders := by decide
+  refine ⟨H, ?_, ?_, ?_, ?_, ?_, ?_⟩
+  · simp [statusIntoHttp, statusIntoHttpWith, responseNew, hH]
+  · rw [hget nameContentType, hother]
+    simp [n4, n5, n6]
+  · rw [hget nameGrpcStatus]
+    simp [Ne.symm n2, Ne.symm n3]
+  · rw [hget nameGrpcMessage, hother]
+    cases hm : st.message.isEmpty <;> simp [Ne.symm n1, n3, Ne.symm n5, hmres]
+  · rw [hget nameGrpcDetails, hother]
+    cases hd : st.details.isEmpty <;> simp [n1, n2, Ne.symm n6]
+  · intro k k4 k3 k2 k1
+    rw [hget k, hother k]
+    simp [k1, k2, k3, k4]
+
+/-! ### client side: lenient percent-decoding, code parsing -/
+
+theorem hexDigitVal_hexUpper : ∀ n : Fin 16, hexDigitVal (hexUpper n.val) = some n.val := by decide
+
+theorem byteOfNibbles_split (b : UInt8) : byteOfNibbles (b.toNat / 16) (b.toNat % 16) = b := by
+  have : b.toNat / 16 * 16 + b.toNat % 16 = b.toNat := by omega
+  rw [byteOfNibbles, this]; exact UInt8.ofNat_toNat
+
+/-- `percent_decode` (the lenient decoder the client uses) inverts the encoder too. -/
+theorem percentDecodeLenient_percentEncode (m : Bytes) :
+    percentDecodeLenient (percentEncode m) = m := by
+  induction m with
+  | nil => simp [percentEncode, percentDecodeLenient]
+  | cons b bs ih =>
+    have hlt := b.toNat_lt
+    cases h : inEncodeSet b
+    · have ⟨_, h2⟩ := not_inEncodeSet_unencoded b h
+      simp only [percentEncode, h, Bool.false_eq_true, if_false]
+      rw [percentDecodeLenient.eq_def]
+      simp [h2, ih]
+    · have e1 := hexDigitVal_hexUpper ⟨b.toNat / 16, by omega⟩
+      have e2 := hexDigitVal_hexUpper ⟨b.toNat % 16, by omega⟩
+      simp only at e1 e2
+      simp only [percentEncode, h, if_true]
+      rw [percentDecodeLenient.eq_def]
+      simp [e1, e2, ih, byteOfNibbles_split]
+
+theorem codeFromBytes_codeHeaderValue : ∀ c : Fin 17, codeFromBytes (codeHeaderValue c.val) = c.val := by
+  decide
+
 end Interceptor
